@@ -304,7 +304,10 @@ func (c15) Rule() string {
 		"short/failing writers with and without error) x contents (empty, text, binary, invalid UTF-8, a few KB) x ClosesStream on/off x closable or not x pre-populated or fresh; " +
 		"JSON/XML/YAML producer->consumer round trips (differential), incl. one number literal (integers around/beyond 2^53 and the int64/uint64 limits, 20-60 digits, " +
 		"long decimals, exponents beyond float64) at every number slot of every destination shape (interface slots reached through structs, slices, arrays, maps, pointers, " +
-		"named and embedded types; typed int64/uint64/float64/json.Number/big.Int slots, XML attributes) compared leaf by leaf as exact decimal text. Non-trivial: a consume/produce case with a non-nil stream and a non-nil " +
+		"named and embedded types; typed int64/uint64/float64/json.Number/big.Int slots, XML attributes) compared leaf by leaf as exact decimal text; sources behind SEVERAL of the interfaces a producer dispatches on with a different rendering behind each (TextMarshaler+Stringer, TextMarshaler+error, error+Stringer, all three, " +
+		"BinaryMarshaler+TextMarshaler+Stringer, a named string and a struct by value with MarshalText+String): the kind given to the model is the one the documented order selects; rt/textval: time.Time, *big.Float (200 bits), *big.Int, *big.Rat, net.IP, " +
+		"*url.URL, an enum with wire and display form, an error with a wire form, produced and consumed back through the text (byte stream: time, URL) codec; rt/large: values of 64 KiB .. 4 MiB (generated: 24 KiB .. 3 MiB on a logarithmic scale) " +
+		"as one long string, a long list, a top-level list, a map of many keys through JSON / YAML / XML / text / byte stream, read back in one chunk + EOF, in 50 021-byte chunks, or from a bytes.Reader. Non-trivial: a consume/produce case with a non-nil stream and a non-nil " +
 		"destination/source whose script or content is not empty, or a round trip."
 }
 
@@ -846,6 +849,10 @@ func c15Codecs(name string) (runtime.Producer, runtime.Consumer) {
 		return runtime.XMLProducer(), runtime.XMLConsumer()
 	case "yaml":
 		return yamlpc.YAMLProducer(), yamlpc.YAMLConsumer()
+	case "text":
+		return runtime.TextProducer(), runtime.TextConsumer()
+	case "bytestream":
+		return runtime.ByteStreamProducer(), runtime.ByteStreamConsumer()
 	}
 	panic("rt: codec " + name)
 }
@@ -900,6 +907,12 @@ func c15OneByteSteps(b []byte) []c15Step {
 
 func c15RoundTrip(in c15In) (bool, string) {
 	prod, cons := c15Codecs(in.Codec)
+	switch in.Shape {
+	case "large":
+		return c15RoundTripLarge(in, prod, cons)
+	case "textval":
+		return c15RoundTripTextVal(in, prod, cons)
+	}
 	content := string(in.Content)
 	sink := c15NewWriter(nil, "")
 	feed := func() io.Reader {
@@ -1514,14 +1527,14 @@ func (c15) Coq(inAny any, obsAny any) string {
 	case "hist":
 		return c15CoqHist(in, obs)
 	case "rt":
-		f := map[string]int{"json": 0, "xml": 1, "yaml": 2}[in.Codec]
+		f := map[string]int{"json": 0, "xml": 1, "yaml": 2, "text": 3, "bytestream": 4}[in.Codec]
 		if in.Shape == "slots" {
 			return fmt.Sprintf("CNumSlots %d %s %s %s %s", f, coqBool(obs.Panicked), coqBool(obs.Failed), coqBytesList(obs.Want), coqBytesList(obs.GotL))
 		}
 		if in.Shape == "names" || in.Shape == "xtree" {
 			return fmt.Sprintf("CDocLeaves %d %s %s %s %s", f, coqBool(obs.Panicked), coqBool(obs.Failed), coqBytesList(obs.Want), coqBytesList(obs.GotL))
 		}
-		sh := map[string]int{"doc": 0, "bignum": 1, "html": 2, "first": 3}[in.Shape]
+		sh := map[string]int{"doc": 0, "bignum": 1, "html": 2, "first": 3, "large": 4, "textval": 5}[in.Shape]
 		return fmt.Sprintf("CRoundTrip %d %d %s %s", f, sh, coqBool(obs.Panicked), coqBool(obs.OK))
 	}
 	panic("unknown kind " + in.Kind)
@@ -1643,6 +1656,12 @@ func (c15) Category(inAny any, obsAny any) (string, bool) {
 		}
 		if !obs.Panicked && !obs.OK {
 			out = "differs"
+		}
+		if in.Shape == "large" {
+			return fmt.Sprintf("rt/%s/large/%s/%s/%s", in.Codec, in.Slot, c15SizeClass(in.Num), out), true
+		}
+		if in.Shape == "textval" {
+			return fmt.Sprintf("rt/%s/textval/%s/%s", in.Codec, in.Slot, out), true
 		}
 		return fmt.Sprintf("rt/%s/%s/%s", in.Codec, in.Shape, out), true
 	}
@@ -1927,6 +1946,14 @@ func c15GenProduce(r *rand.Rand, codec string, maxLen int) c15In {
 }
 
 func (c15) Gen(r *rand.Rand, tier string, i int) any {
+	// scheduled by case index, so that every seed runs them: values with a wire form and a display form through the
+	// text codec, and documents far larger than any buffer or size cap (a dozen per quick run; they are compared in Go)
+	if i%25 == 7 {
+		return c15GenTextVal(r)
+	}
+	if i%330 == 11 {
+		return c15GenLarge(r, tier)
+	}
 	k := r.Intn(26)
 	switch {
 	case k >= 24:
@@ -2106,5 +2133,7 @@ func (c15) Enumerate(tier string) []any {
 	}
 	out = append(out, c15EnumNames()...)
 	out = append(out, c15EnumHist()...)
+	out = append(out, c15EnumTextVal()...)
+	out = append(out, c15EnumLarge(tier)...)
 	return out
 }
